@@ -1061,6 +1061,18 @@ func runC10(r *RunCtx) error {
 					mk := func(kind, k, ids, keys string) c10Op {
 						return c10Op{Kind: kind, K: k, Creator: g.accts[own].String(), Address: tgt.Address, FileOwner: tgt.Owner, Ids: ids, Keys: keys, Shape: "contained-ids"}
 					}
+					// entries whose stored viewer list is not a JSON object of strings (a client bug, or crafted): the owner's
+					// remove-viewers is refused and the list stays as it is
+					acct := hexsha(g.accts[own].String())
+					for bi, badViewers := range []string{`{"v1":"k","v2":7}`, `{"v1":"k","v2":"k"`, `["v1"]`} {
+						child := hexsha(fmt.Sprintf("malformed-viewers-%d", bi))
+						addr := fttypes.AddToMerkle(tgt.Address, child)
+						tn := g.tracking()
+						queue = append(queue, c10Op{Kind: "post", Creator: g.accts[own].String(), Account: acct, HashParent: tgt.Address, HashChild: child, Contents: "c",
+							Viewers: badViewers, Editors: g.aclJSON("edit", tn, []int{own}), Tracking: tn, Shape: "malformed-viewers"},
+							c10Op{Kind: "remove", K: "view", Creator: g.accts[own].String(), Address: addr, FileOwner: ftkeeper.MakeOwnerAddress(addr, acct), Ids: "v1", Shape: "malformed-viewers"},
+							c10Op{Kind: "remove", K: "edit", Creator: g.accts[own].String(), Address: addr, FileOwner: ftkeeper.MakeOwnerAddress(addr, acct), Ids: "nobody", Shape: "malformed-viewers"})
+					}
 					queue = append(queue, mk("add", "edit", "ops,ops-oncall", "k1,k2"), mk("remove", "edit", "ops-oncall", ""),
 						mk("add", "view", "v1,v10,v100", "a,b,c"), mk("remove", "view", "v100,v10", ""), mk("remove", "edit", c10Editor(tgt.TrackingNumber, g.accts[own].String())+"-old", ""))
 				}
